@@ -743,7 +743,22 @@ class Controller:
         assert pending_le_connection
 
         if self.le_connections.get(peer_address):
-            logger.error("Connection for %s already exists?", peer_address)
+            # Already connected to this peer: conclude the procedure with an error
+            logger.warning("Connection for %s already exists", peer_address)
+            self.pending_le_connection = None
+            self.send_hci_packet(
+                hci.HCI_LE_Connection_Complete_Event(
+                    status=hci.HCI_ErrorCode.CONNECTION_ALREADY_EXISTS_ERROR,
+                    connection_handle=0,
+                    role=hci.Role.CENTRAL,
+                    peer_address_type=peer_address.address_type,
+                    peer_address=peer_address,
+                    connection_interval=0,
+                    peripheral_latency=0,
+                    supervision_timeout=0,
+                    central_clock_accuracy=0,
+                )
+            )
             return
 
         self_address = (
